@@ -16,7 +16,6 @@ passed / returned.  Tolerances: relative 1e-6 as stated plus a floor forced by f
 (ulp(360 deg) = 2e-10 arcsec) and, where a latitude is recovered from a sine or cosine, the conditioning of that
 inverse (error eps * tan(lat), at most sqrt(2 eps) = 0.004 arcsec at the pole).
 """
-import itertools
 import math
 
 import numpy as np
